@@ -193,7 +193,25 @@ def run(tier, seed):
         else:
             t = [ctx.rng.randrange(n) for _ in range(k)]
         longs.append(tuple(t))
-    triples = list(triples) + longs
+    # operands that binary32 cannot tell apart (an exact number, another exact number, the real both are converted to): every ordered triple
+    # and some longer tuples over each such class - comparisons among them are not transitive, an n-ary one is still the conjunction of its pairs
+    classes = {}
+    for i in range(n):
+        v = g[i][1]
+        try:
+            f = ref_num.to_f32(v) if ref_num.is_exact(v) else v.value
+        except Exception:
+            f = None
+        if f is not None and f == f and (not ref_num.is_exact(v) or ref_num.representable(v)):
+            classes.setdefault(f, []).append(i)
+    coll = []
+    for f, idx in classes.items():
+        exact = [i for i in idx if ref_num.is_exact(g[i][1])]
+        if len({g[i][1] for i in exact}) >= 2 and len(idx) <= 8:
+            coll += list(itertools.product(idx, repeat=3))
+            coll += [tuple(ctx.rng.choice(idx) for _ in range(ctx.rng.choice([4, 5]))) for _ in range(40)]
+    ctx.observed["collision_tuples"] = len(coll)
+    triples = list(triples) + longs + (coll if core.PART_I == 0 else [])
     ctx.observed["grid_size"] = n
     for leg in ["dev", "release"]:
         ts = pairs + (triples if (leg == "dev" or tier == "thorough") else triples[::5])
